@@ -21,7 +21,7 @@ if REPO not in sys.path:
     sys.path.insert(0, REPO)
 sys.setrecursionlimit(3000)
 
-TRANSLATORS = ["tr_lexer.py", "tr_parser_tables.py", "tr_generator_tables.py", "tr_ast.py", "tr_state.py"]
+TRANSLATORS = ["tr_lexer.py", "tr_parser_tables.py", "tr_generator_tables.py", "tr_ast.py", "tr_state.py", "tr_litspec.py"]
 
 FORBIDDEN = re.compile(
     r"\b(Admitted|admit|Axiom|Axioms|Parameter|Parameters|Conjecture|Conjectures|Hypothesis|Hypotheses)\b"
